@@ -15,8 +15,15 @@ SPECIAL_IDS = [0, -1, 2147483647, -2147483648, 4294967295, 2147483648]
 
 
 def reply_frame(frame, rng, body=None):
-    """correlation id + nonce of the request frame being answered + a few bytes"""
+    """correlation id + nonce of the request frame being answered + a few bytes; sometimes the SHORTEST legal
+    responses: the correlation id alone (a header-only response, empty API body) or the id followed by fewer bytes
+    than the nonce (the routing monitor then has no echo to go by; the core monitor still demands the firing)"""
     if body is None:
+        m = rng.random()
+        if m < 0.07:
+            return frame[4:8]
+        if m < 0.12:
+            return frame[4:8] + bytes(rng.randrange(256) for _ in range(rng.randrange(1, 8)))
         body = bytes(rng.randrange(256) for _ in range(rng.choice([0, 0, 1, 3, 9])))
     return frame[4:8] + frame[8:16] + body
 
@@ -157,7 +164,10 @@ class Online(object):
         elif k == "cancel":
             cid = rng.choice(self.made[-6:]) if rng.random() < 0.85 else rng.choice(self.pool)
             self.emit("cancel %d" % cid)
-        elif k in ("connOk", "connFail", "lost", "disconnect", "close"):
+        elif k == "lost":
+            # the reason connectionLost() is called with: ConnectionDone, ConnectionLost, anything else
+            self.emit(rng.choice(["lost", "lost", "lost lost", "lost lost", "lost other"]))
+        elif k in ("connOk", "connFail", "disconnect", "close"):
             self.emit(k)
         elif k == "advance":
             due = r.timer_due()
@@ -178,7 +188,8 @@ class Online(object):
             self.sbuf += lenpfx(reply_frame(rng.choice(self.answered), rng))
         elif k == "unsol":
             cid = rng.choice(self.pool + SPECIAL_IDS + [77])
-            self.sbuf += lenpfx(struct.pack(">I", cid & 0xFFFFFFFF) + b"\xee" * 8 + bytes(rng.randrange(256) for _ in range(rng.randrange(0, 4))))
+            tail = b"" if rng.random() < 0.1 else b"\xee" * 8 + bytes(rng.randrange(256) for _ in range(rng.randrange(0, 4)))
+            self.sbuf += lenpfx(struct.pack(">I", cid & 0xFFFFFFFF) + tail)
         elif k == "short":
             self.sbuf += lenpfx(bytes(rng.randrange(256) for _ in range(rng.randrange(0, 4))))
         elif k == "oversize":
